@@ -38,7 +38,7 @@ CODECS = ["null", "deflate", "bzip2", "xz"]
 REACH = {
     "quick": {"files_checked": 1500, "zero_byte_record_files": 30, "empty_files": 20,
               "interval_exact": 30, "non_record_top": 100, "writeonly_outputs": 200,
-              "readonly_inputs": 200, "realfile_io": 100},
+              "readonly_inputs": 200, "realfile_io": 100, "writer_class_flush_groupings": 300},
     "thorough": {"files_checked": 20000},
 }
 
@@ -100,7 +100,27 @@ def run_config(sh, fa, case, cfg, scratch, tag):
         kw["sync_marker"] = cfg["marker"]
     if cfg["level"] is not None:
         kw["codec_compression_level"] = cfg["level"]
-    st, err = guard(fa.writer, fo, schema_arg, list(recs), **kw)
+    if cfg.get("flushes") is not None:
+        # the Writer class with explicit flush groupings (another way of grouping records into blocks)
+        def write_grouped():
+            from fastavro.write import Writer
+            wkw = dict(codec=kw["codec"], sync_interval=kw["sync_interval"], metadata=kw["metadata"])
+            if "sync_marker" in kw:
+                wkw["sync_marker"] = kw["sync_marker"]
+            if "codec_compression_level" in kw:
+                wkw["compression_level"] = kw["codec_compression_level"]
+            w = Writer(fo, schema_arg, **wkw)
+            for i, r in enumerate(recs):
+                w.write(r)
+                if i in cfg["flushes"]:
+                    w.flush()
+                    if i % 2:
+                        w.flush()
+            w.flush()
+        st, err = guard(write_grouped)
+        sh.count("writer_class_flush_groupings")
+    else:
+        st, err = guard(fa.writer, fo, schema_arg, list(recs), **kw)
     if path:
         fo.close()
     if st == "exc":
@@ -230,7 +250,8 @@ def one_case(sh, fa, rng, case, scratch, tag, full_matrix=False):
                    "parsed": rng.random() < 0.5,
                    "meta": rng.choice(metas),
                    "marker": bytes(rng.getrandbits(8) for _ in range(16)) if rng.random() < 0.5 else b"",
-                   "level": rng.choice([None, 0, 1, 6, 9]) if codec == "deflate" else None}
+                   "level": rng.choice([None, 0, 1, 6, 9]) if codec == "deflate" else None,
+                   "flushes": sorted(rng.sample(range(len(recs)), rng.randint(0, len(recs)))) if recs and rng.random() < 0.3 else None}
             sh.case(h64(schema_shape(js), min(len(recs), 5), codec, intervals.index(iv), out, inp, cfg["parsed"]),
                     bool(recs) or out != "bytesio" or codec != "null")
             got = run_config(sh, fa, case, cfg, scratch, "%s-%d" % (tag, n))
